@@ -178,8 +178,9 @@ class DaemonObject(object):
         if streamId not in self.daemon.streaming_responses:
             raise errors.PyroError("item stream terminated")
         client, timestamp, linger_timestamp, stream = self.daemon.streaming_responses[streamId]
-        if client is None:
-            # reset client connection association (can be None if proxy disconnected)
+        if client is not current_context.client:
+            # (re)set the client connection association: it is None if the proxy disconnected, and still the old connection
+            # if the proxy reconnected before the daemon has dealt with that disconnect (which must then leave this stream alone)
             self.daemon.streaming_responses[streamId] = (current_context.client, timestamp, 0, stream)
         try:
             return next(stream)
